@@ -277,6 +277,9 @@ ChunkEnd(c, p) == Add(p, Off(c.lines, c.fcol))
 (***************************************************************************)
 Origs == {<<0, 0>>, <<1, 4>>}
 NameVals == {-1, 0, 1}
+\* (smaller value sets that a config may substitute: Origs <- OneOrig, NameVals <- FewNames)
+OneOrig == {<<1, 4>>}
+FewNames == {-1, 0}
 MaxSrc == Max(SrcCounts)
 \* a mapping of a chunk names a source of the file's OWN map (0 for a plain file)
 MapSet == {Mp(gl, gc, sr, o[1], o[2], nm) : gl \in 0..MaxLine, gc \in Cols, sr \in 0..(MaxSrc - 1), o \in Origs, nm \in NameVals}
@@ -465,4 +468,54 @@ ShiftsOnlyOwnLine ==
 \* substitution keeps the order of generated positions
 ShiftKeepsOrder ==
   \A i \in 1..(Len(s.maps) - 1) : ~PosLess(s.dec[i + 1], s.dec[i])
+
+(***************************************************************************)
+(* 7. Composition through an input source map: SourceMap.Find and          *)
+(*    ChunkBuilder.appendMapping (internal/sourcemap/sourcemap.go)         *)
+(***************************************************************************)
+\* An input map is a sequence of segments [gl, gc, one, id] sorted by (gl, gc)
+\* (not strictly: several segments may stand at one generated position).  one =
+\* a 1-field segment ("the text from here on has no origin"); id stands for the
+\* segment's (source, original line, original column, name).
+\* SourceMap.Find: binary search for the last segment at or before (line, col);
+\* it only counts when it is on the same line
+RECURSIVE FindLoop(_, _, _, _, _)
+FindLoop(ms, line, col, index, count) ==
+  IF count <= 0 THEN index
+  ELSE LET step == count \div 2
+           i == index + step
+       IN IF ms[i + 1].gl < line \/ (ms[i + 1].gl = line /\ ms[i + 1].gc <= col)
+          THEN FindLoop(ms, line, col, i + 1, count - step - 1)
+          ELSE FindLoop(ms, line, col, index, step)
+Find(ms, line, col) ==       \* index of the segment found, 0 = none
+  LET index == FindLoop(ms, line, col, 0, Len(ms))
+  IN IF index > 0 /\ ms[index].gl = line THEN index ELSE 0
+\* Reference meaning of a lookup: the LAST segment of that line that does not
+\* start after the column covers the position
+RefFind(ms, line, col) ==
+  LET S == {i \in 1..Len(ms) : ms[i].gl = line /\ ms[i].gc <= col}
+  IN IF S = {} THEN 0 ELSE Max(S)
+\* what esbuild's parser keeps of an input map: 1-field segments are dropped
+RECURSIVE Kept(_)
+Kept(ms) == IF ms = <<>> THEN <<>> ELSE (IF Head(ms).one THEN <<>> ELSE <<Head(ms)>>) \o Kept(Tail(ms))
+\* appendMapping: a printer mapping that points at (line, col) of the intermediate
+\* text is replaced by the segment found there, or dropped (0)
+ComposeId(ms, line, col) == LET k == Find(Kept(ms), line, col) IN IF k = 0 THEN 0 ELSE Kept(ms)[k].id
+RefComposeId(ms, line, col) == LET k == RefFind(ms, line, col) IN IF k = 0 \/ ms[k].one THEN 0 ELSE ms[k].id
+
+\* the find machine: every small input map is one initial state
+FindSegs(n, ones) == {ms \in [1..n -> [gl : 0..1, gc : Cols, one : ones, id : 1..n]] :
+                        /\ \A i \in 1..n : ms[i].id = i
+                        /\ \A i \in 1..(n - 1) : ~PosLess(ms[i + 1], ms[i])}
+FindInit == \E n \in 0..MaxMaps : \E ms \in FindSegs(n, {FALSE}) : s = ms
+FindInit1 == \E n \in 0..MaxMaps : \E ms \in FindSegs(n, BOOLEAN) : s = ms
+FindNext == FALSE /\ s' = s
+QueryCols == Cols \cup {c + 1 : c \in Cols}
+\* the binary search is the reference lookup (no 1-field segments)
+FindIsCovering == \A line \in 0..2, col \in QueryCols : Find(s, line, col) = RefFind(s, line, col)
+\* with 1-field segments kept out by the parser, the composition still honours
+\* them -- expected to be VIOLATED on the model (config SourceMap.find1.cfg): text
+\* after a 1-field segment inherits the segment before it; the counterexample is
+\* replayed against the real bundler by the "holes" input maps (c07/inmap.go)
+ComposeHonoursUnmapped == \A line \in 0..2, col \in QueryCols : ComposeId(s, line, col) = RefComposeId(s, line, col)
 =============================================================================
